@@ -7,10 +7,14 @@ import (
 	"context"
 	"fmt"
 	"sort"
+	"strconv"
+	"strings"
 
 	v1 "k8s.io/api/core/v1"
 	kerrors "k8s.io/apimachinery/pkg/api/errors"
+	metav1 "k8s.io/apimachinery/pkg/apis/meta/v1"
 	"k8s.io/apimachinery/pkg/runtime/schema"
+	"k8s.io/apimachinery/pkg/types"
 	"k8s.io/apimachinery/pkg/watch"
 	"sigs.k8s.io/controller-runtime/pkg/client"
 
@@ -30,8 +34,16 @@ type Store struct {
 	PodGroups    []*schedulingv2alpha2.PodGroup
 	Calls        []string // every API call, in order
 	Writes       []string // mutating calls only
+	Faulted      []string // calls that were made to fail
 	FaultsOn     bool
+	CrashesOn    bool // a call may be the last thing the process does (see Crashed)
+	Crashed      bool
 }
+
+// CrashPanic is what every API call raises once the process has "died": the code under test unwinds
+// (its deferred handlers run and die on their first API call too) up to the harness, which then
+// starts a new process (fresh reconciler) over the same store.
+type CrashPanic struct{}
 
 func NewStore() *Store {
 	return &Store{Pods: map[string]*v1.Pod{}, Nodes: map[string]*v1.Node{}, BindRequests: map[string]*schedulingv1alpha2.BindRequest{},
@@ -45,14 +57,33 @@ type apiError struct{ msg string }
 func (e *apiError) Error() string { return e.msg }
 
 func (s *Store) call(site string, write bool) error {
+	if s.Crashed {
+		panic(CrashPanic{})
+	}
 	s.Calls = append(s.Calls, site)
 	if write {
 		s.Writes = append(s.Writes, site)
 	}
 	if s.FaultsOn && vr.Fault(site) {
+		s.Faulted = append(s.Faulted, site)
 		return &apiError{"injected API failure at " + site}
 	}
+	if s.CrashesOn && vr.Fault("crash-before-" + site) {
+		// the process dies before this call reaches the API server
+		s.Crashed = true
+		panic(CrashPanic{})
+	}
 	return nil
+}
+
+// HasFaulted reports whether a call at the given site was made to fail.
+func (s *Store) HasFaulted(site string) bool {
+	for _, f := range s.Faulted {
+		if f == site {
+			return true
+		}
+	}
+	return false
 }
 
 // Client implements the subset of client.Client the binder uses; other methods panic (nil embed).
@@ -170,10 +201,16 @@ func (c *Client) Delete(ctx context.Context, obj client.Object, opts ...client.D
 		if err := c.S.call("delete-pod", true); err != nil {
 			return err
 		}
+		if _, ok := c.S.Pods[key(o.Namespace, o.Name)]; !ok {
+			return notFound("pods", o.Name)
+		}
 		delete(c.S.Pods, key(o.Namespace, o.Name))
 	case *v1.ConfigMap:
 		if err := c.S.call("delete-configmap", true); err != nil {
 			return err
+		}
+		if _, ok := c.S.ConfigMaps[key(o.Namespace, o.Name)]; !ok {
+			return notFound("configmaps", o.Name)
 		}
 		delete(c.S.ConfigMaps, key(o.Namespace, o.Name))
 	default:
@@ -182,8 +219,14 @@ func (c *Client) Delete(ctx context.Context, obj client.Object, opts ...client.D
 	return nil
 }
 
-// Patch applies the caller's mutated object (as controller-runtime's fake does for MergeFrom).
+// Patch. A MergeFrom patch carries the difference between the caller's earlier copy and its
+// mutated object; the binder reads, mutates and patches within one reconcile and nobody else writes,
+// so the result is the caller's labels/annotations (pods) or data/owners (config maps). A raw patch
+// is interpreted from its real bytes (JSON patch "remove" on label paths, JSON merge patch on
+// metadata.labels/annotations). As with the real client, the stored object is decoded back into the
+// caller's object on success.
 func (c *Client) Patch(ctx context.Context, obj client.Object, patch client.Patch, opts ...client.PatchOption) error {
+	raw := vr.TypeName(patch) != "mergeFromPatch"
 	switch o := obj.(type) {
 	case *v1.Pod:
 		if err := c.S.call("patch-pod", true); err != nil {
@@ -193,11 +236,16 @@ func (c *Client) Patch(ctx context.Context, obj client.Object, patch client.Patc
 		if !ok {
 			return notFound("pods", o.Name)
 		}
-		status := st.Status
-		nodeName := st.Spec.NodeName
-		o.DeepCopyInto(st)
-		st.Status = status          // main-resource patch does not touch status
-		st.Spec.NodeName = nodeName // nodeName is only set through the binding sub-resource
+		if raw {
+			data, _ := patch.Data(obj)
+			if err := applyRawMetaPatch(&st.ObjectMeta, patch.Type(), data); err != nil {
+				return err
+			}
+		} else {
+			st.Labels = copyMap(o.Labels)
+			st.Annotations = copyMap(o.Annotations)
+		}
+		st.DeepCopyInto(o)
 	case *v1.ConfigMap:
 		if err := c.S.call("patch-configmap", true); err != nil {
 			return err
@@ -206,11 +254,186 @@ func (c *Client) Patch(ctx context.Context, obj client.Object, patch client.Patc
 		if !ok {
 			return notFound("configmaps", o.Name)
 		}
+		if raw {
+			panic("zz_veriffake: raw patch of a ConfigMap is not supported")
+		}
 		o.DeepCopyInto(st)
 	default:
 		panic(fmt.Sprintf("zz_veriffake: Patch of unsupported type %T", obj))
 	}
 	return nil
+}
+
+func copyMap(m map[string]string) map[string]string {
+	if m == nil {
+		return nil
+	}
+	out := make(map[string]string, len(m))
+	for k, v := range m {
+		out[k] = v
+	}
+	return out
+}
+
+// applyRawMetaPatch interprets the two kinds of literal patches the binder builds.
+func applyRawMetaPatch(meta *metav1.ObjectMeta, pt types.PatchType, data []byte) error {
+	doc, rest := parseJSON(string(data))
+	if rest != "" {
+		panic("zz_veriffake: trailing bytes in patch: " + string(data))
+	}
+	switch pt {
+	case types.JSONPatchType:
+		ops, ok := doc.([]any)
+		if !ok {
+			if doc == nil {
+				return nil // "null": an empty operation list
+			}
+			panic("zz_veriffake: JSON patch is not a list: " + string(data))
+		}
+		// a JSON patch is atomic: validate every operation before applying any
+		var keys []string
+		for _, op := range ops {
+			m := op.(map[string]any)
+			if m["op"] != "remove" {
+				panic("zz_veriffake: unsupported JSON patch op in " + string(data))
+			}
+			path, _ := m["path"].(string)
+			const prefix = "/metadata/labels/"
+			if !strings.HasPrefix(path, prefix) {
+				panic("zz_veriffake: unsupported JSON patch path " + path)
+			}
+			k := strings.ReplaceAll(strings.ReplaceAll(path[len(prefix):], "~1", "/"), "~0", "~")
+			if _, found := meta.Labels[k]; !found {
+				return &apiError{"the server rejected our request: remove operation does not apply: path " + path + " not found"}
+			}
+			keys = append(keys, k)
+		}
+		for _, k := range keys {
+			delete(meta.Labels, k)
+		}
+	case types.MergePatchType:
+		top, ok := doc.(map[string]any)
+		if !ok {
+			panic("zz_veriffake: merge patch is not an object: " + string(data))
+		}
+		for tk, tv := range top {
+			if tk != "metadata" {
+				panic("zz_veriffake: unsupported merge patch key " + tk)
+			}
+			for mk, mv := range tv.(map[string]any) {
+				var target *map[string]string
+				switch mk {
+				case "annotations":
+					target = &meta.Annotations
+				case "labels":
+					target = &meta.Labels
+				default:
+					panic("zz_veriffake: unsupported merge patch key metadata." + mk)
+				}
+				if *target == nil {
+					*target = map[string]string{}
+				}
+				for k, v := range mv.(map[string]any) {
+					if v == nil {
+						delete(*target, k)
+					} else {
+						(*target)[k] = v.(string)
+					}
+				}
+			}
+		}
+	default:
+		panic("zz_veriffake: unsupported raw patch type " + string(pt))
+	}
+	return nil
+}
+
+// parseJSON is a minimal JSON reader (objects, arrays, strings, null, bare tokens as strings).
+func parseJSON(s string) (any, string) {
+	s = strings.TrimLeft(s, " \t\n")
+	if s == "" {
+		panic("zz_veriffake: empty JSON")
+	}
+	switch s[0] {
+	case '{':
+		out := map[string]any{}
+		s = strings.TrimLeft(s[1:], " ")
+		if s[0] == '}' {
+			return out, s[1:]
+		}
+		for {
+			k, rest := parseJSON(s)
+			rest = strings.TrimLeft(rest, " ")
+			if rest[0] != ':' {
+				panic("zz_veriffake: bad JSON object")
+			}
+			v, rest2 := parseJSON(rest[1:])
+			out[k.(string)] = v
+			rest2 = strings.TrimLeft(rest2, " ")
+			if rest2[0] == ',' {
+				s = rest2[1:]
+				continue
+			}
+			if rest2[0] != '}' {
+				panic("zz_veriffake: bad JSON object end")
+			}
+			return out, rest2[1:]
+		}
+	case '[':
+		out := []any{}
+		s = strings.TrimLeft(s[1:], " ")
+		if s[0] == ']' {
+			return out, s[1:]
+		}
+		for {
+			v, rest := parseJSON(s)
+			out = append(out, v)
+			rest = strings.TrimLeft(rest, " ")
+			if rest[0] == ',' {
+				s = rest[1:]
+				continue
+			}
+			if rest[0] != ']' {
+				panic("zz_veriffake: bad JSON array end")
+			}
+			return out, rest[1:]
+		}
+	case '"':
+		var b []byte
+		i := 1
+		for s[i] != '"' {
+			if s[i] == '\\' {
+				i++
+				switch s[i] {
+				case 'u':
+					v, err := strconv.ParseUint(s[i+1:i+5], 16, 32)
+					if err != nil || v > 127 {
+						panic("zz_veriffake: unsupported \\u escape")
+					}
+					b = append(b, byte(v))
+					i += 4
+				case 'n':
+					b = append(b, '\n')
+				case 't':
+					b = append(b, '\t')
+				default:
+					b = append(b, s[i])
+				}
+			} else {
+				b = append(b, s[i])
+			}
+			i++
+		}
+		return string(b), s[i+1:]
+	}
+	if strings.HasPrefix(s, "null") {
+		return nil, s[4:]
+	}
+	i := 0
+	for i < len(s) && s[i] != ',' && s[i] != '}' && s[i] != ']' && s[i] != ' ' {
+		i++
+	}
+	return s[:i], s[i:]
 }
 
 func (c *Client) Create(ctx context.Context, obj client.Object, opts ...client.CreateOption) error {
@@ -370,7 +593,7 @@ func (c *Client) Watch(ctx context.Context, list client.ObjectList, opts ...clie
 			if target.Annotations == nil {
 				target.Annotations = map[string]string{}
 			}
-			target.Annotations["run.ai/reserve_for_gpu_index"] = "GPU-0"
+			target.Annotations["run.ai/reserve_for_gpu_index"] = "idx-" + target.Labels["runai-gpu-group"]
 			w.ch <- watch.Event{Type: watch.Modified, Object: target.DeepCopy()}
 		}
 	case 1:
